@@ -11,15 +11,19 @@ let verdict_str (map : int array) v = match v with
 let tasks_of_spec (spec : string) (dup : bool) : (bool * int) list =
   let n = String.length spec in
   let idxs = List.init n (fun i -> i) in
-  let ctx = List.filter (fun i -> spec.[i] = 'v' || spec.[i] = 'x' || spec.[i] = 'V') idxs in
-  let atv = List.filter (fun i -> spec.[i] = 'a' || spec.[i] = 'b') idxs in
-  let valid i = (spec.[i] = 'v' || spec.[i] = 'a' || spec.[i] = 'V') in
+  let is_ctx c = (c = 'v' || c = 'x' || c = 'V') and is_vtb c = (c = 't' || c = 'u') in
+  let ctx = List.filter (fun i -> is_ctx spec.[i]) idxs in
+  let vtb = List.filter (fun i -> is_vtb spec.[i]) idxs in
+  let atv = List.filter (fun i -> not (is_ctx spec.[i]) && not (is_vtb spec.[i])) idxs in
+  let valid i = (spec.[i] = 'v' || spec.[i] = 'a' || spec.[i] = 'V' || spec.[i] = 't') in
   let first_valid = try Some (List.find valid idxs) with Not_found -> None in
-  let ctx', atv' = match dup, first_valid with
-    | true, Some i when List.mem i ctx -> ctx @ [i], atv
-    | true, Some i -> ctx, atv @ [i]
-    | _ -> ctx, atv in
-  List.map (fun i -> (valid i, i)) (ctx' @ atv')
+  let ctx', vtb', atv' = match dup, first_valid with
+    | true, Some i when List.mem i ctx -> ctx @ [i], vtb, atv
+    | true, Some i when List.mem i vtb -> ctx, vtb @ [i], atv
+    | true, Some i -> ctx, vtb, atv @ [i]
+    | _ -> ctx, vtb, atv in
+  List.map (fun i -> (valid i, i)) (ctx' @ vtb' @ atv')
+
 
 
 (* ---------------- C17: cache templates ---------------- *)
